@@ -1,4 +1,6 @@
 import GlyProofs.Front.Accept
+import GlyProofs.Front.AtnSound
+import GlyModel.Generated.Atn
 import GlyProofs.Front.ParseComplete
 /-
   C15 — What is accepted is exactly the published grammar.  (Property theorems only.)
@@ -65,5 +67,29 @@ theorem C15_examples :
     Model.accepts "Man(a1-3)[Man(a1-6)]Man(b1-4)GlcNAc".toList = true ∧
     Model.accepts "Glc#Man".toList = false ∧ Model.accepts "Glc(a1-4)".toList = false := by
   decide +kernel
+
+/-! ### the generated parser's data is the grammar (neither lags behind nor runs ahead of Glycan.g4) -/
+
+set_option maxRecDepth 100000 in
+open Gly.Atn in
+theorem atn_rules_ok :
+    Gen.parserAtn.length = Gen.grammar.rules.length ∧
+    ((List.range Gen.grammar.rules.length).all (fun i => ruleOk (Gen.parserAtn.getD i default) (Gen.grammar.rule i))) = true := by
+  decide +kernel
+
+open Gly.Atn in
+/-- **The serialized ATN of `GlycanParser.py` is the grammar of `Glycan.g4`, rule by rule**: for every parser rule, the rule's
+    sub-automaton in the serialized ATN (regenerated from `GlycanParser.py` on every run) and the rule's right-hand side in the
+    grammar file (regenerated from `Glycan.g4`) accept the same words over token types and rule references. Decided by a
+    partial-derivative / subset-construction bisimulation whose checker is proved sound (`ruleOk_sound`) and evaluated by the
+    kernel. What interprets this data (the ALL(*) runtime) stays in the trusted base and is tied by correspondence. -/
+theorem C15_atn_matches_grammar (i : Nat) (hi : i < Gen.grammar.rules.length) (w : List Sym)
+    (hw : ∀ s ∈ w, s ∈ alphabetOf (Gen.parserAtn.getD i default) (Gen.grammar.rule i)) :
+    Flat (Gen.grammar.rule i) w ↔
+      Path (Gen.parserAtn.getD i default) (Gen.parserAtn.getD i default).start w (Gen.parserAtn.getD i default).stop := by
+  have h2 := atn_rules_ok.2
+  rw [List.all_eq_true] at h2
+  have hall : ruleOk (Gen.parserAtn.getD i default) (Gen.grammar.rule i) = true := h2 i (List.mem_range.mpr hi)
+  exact ruleOk_sound _ _ hall w hw
 
 end Gly.Props.C15
